@@ -52,6 +52,8 @@ var c03Templates = []string{
 	// writing tags that sit only in clause bodies (else / when), the clause being taken
 	"{% if nothing %}x{% else %}{% assign leak4 = 'E' %}{% capture leak5 %}c{% endcapture %}{% for leak6 in a %}{% endfor %}{% endif %}{{ leak4 }}{{ leak5 }}",
 	"{% case x %}{% when 'never' %}n{% else %}{% assign x = 'changed' %}{% assign a = 'gone' %}{% endcase %}{{ x }}",
+	// receivers of a named slice type (its underlying type is []any: no conversion is needed to read it)
+	"{{ na | sort | join }}|{{ na | sort_natural | join }}|{{ na | reverse | first }}|{{ nl | sort: 'w' | size }}|{{ na | uniq | compact | concat: na | size }}|{{ na | join }}",
 	// thorough
 	"{{ ints | sort | join }}{{ strs | reverse | join }}{{ arr | sort | first }}{{ drop | sort | join }}{{ pst.A }}{{ st.C | sort | join }}",
 	"{{ ms | sort | join }}{{ rng | reverse | join }}{% for kv in m %}{{ kv[0] }}{% endfor %}{{ m.j | sort | join }}",
@@ -84,6 +86,7 @@ func c03Envs(which int) map[string]any {
 			"m":      map[string]any{"k": 1, "j": withSpare(2, 1)},
 			"lm":     withSpare(map[string]any{"w": 2}, map[string]any{"w": 1}, map[string]any{}),
 			"nested": withSpare(withSpare(2, 1), withSpare(4, 3)),
+			"na":     univ.NamedAnys(withSpare("b", "C", "a")), "nl": univ.NamedAnys(withSpare(map[string]any{"w": 2}, map[string]any{"w": 1})),
 		}
 	case 1:
 		n := 7
@@ -227,7 +230,7 @@ func firstDiff(a, b string) string {
 }
 
 func c03Families(tier string) []explore.Family {
-	nT, nB, depth := 26, 3, 2
+	nT, nB, depth := 27, 3, 2
 	if tier == "thorough" {
 		nT, nB, depth = len(c03Templates), 4, 3
 	}
@@ -404,7 +407,7 @@ func init() {
 	explore.Register(&explore.Prop{
 		ID:    "C03",
 		Level: "model_checking",
-		Rule: "explicit-state search over histories of renders R(t,b) on one shared world (one engine, templates parsed once, binding environments built once and shared by reference): all histories of length <=2 over 26 templates x 3 environments (quick) / <=3 over 36 x 4 (thorough), each replayed on a fresh world, plus 40-step round-robin histories from every starting operation; plus a family that keeps the []byte returned by a render of 0..2^20 bytes (13 sizes around 64, 4096, 65536) and re-reads it after later renders; " +
+		Rule: "explicit-state search over histories of renders R(t,b) on one shared world (one engine, templates parsed once, binding environments built once and shared by reference): all histories of length <=2 over 27 templates x 3 environments (quick) / <=3 over 37 x 4 (thorough), each replayed on a fresh world, plus 40-step round-robin histories from every starting operation; plus a family that keeps the []byte returned by a render of 0..2^20 bytes (13 sizes around 64, 4096, 65536) and re-reads it after later renders; " +
 			"templates cover assign of a bound name, capture, shadowing loops, cycle groups, nested loops with break, every array filter on bound arrays (incl. aliased sub-slices and spare capacity), include, a render failing half-way, tablerow, typed slices, structs, pointers, Drops, MapSlice, ranges; " +
 			"invariants after every step: deep snapshot of every environment unchanged (slices up to capacity, unexported fields, aliasing), result equals the solo result on a fresh engine/parse/bindings; structural changes of render trees / engine configuration are recorded (not alarms: the statement defines template immutability through re-render equality); state = canonical world snapshot after the history; transition = one render",
 		Assumptions: []string{
